@@ -367,6 +367,7 @@ func (s *UDPNATRelay) recvFromServerConnRecvmmsg(ctx context.Context, lnc *udpRe
 
 			select {
 			case entry.natConnSendCh <- queuedPacket:
+				verifhook.At("relay.recv.enqueued", s, clientAddrPort)
 			default:
 				if ce := lnc.logger.Check(zap.DebugLevel, "Dropping packet due to full send channel"); ce != nil {
 					ce.Write(
